@@ -341,7 +341,8 @@ Definition matprod_ok (d : Z) (signs : list bool) : bool :=
 
 (* ------------------------------------------------------------------ correspondence
    the comparison uses finite maps keyed by an integer code of the (canonical, non-negative-wire) Pauli word *)
-Definition isent := list (list (Z * P1) * CQ).
+(* implementation sentence: coefficients as integer numerators over a common denominator *)
+Definition isent := list (list (Z * P1) * (Z * Z)).
 Definition pcode (p : P1) : Z := match p with PI => 0 | PX => 1 | PY => 2 | PZ => 3 end.
 Definition wkey (w : word) : positive :=
   Z.to_pos (1 + fold_right (fun e acc => acc + Z.shiftl (pcode (snd e)) (2 * fst e)) 0 w).
@@ -358,8 +359,9 @@ Definition pm_addC (k : positive) (c : CQ) (m : PositiveMap.t CQ) : PositiveMap.
   end.
 Definition model_map (ms : ksent) : PositiveMap.t K :=
   fold_left (fun m e => pm_addK (wkey (fst e)) (snd e) m) ms (PositiveMap.empty K).
-Definition impl_map (imp : isent) : PositiveMap.t CQ :=
-  fold_left (fun m e => pm_addC (wkey (mkword (fst e))) (snd e) m) imp (PositiveMap.empty CQ).
+Definition impl_map (den : positive) (imp : isent) : PositiveMap.t CQ :=
+  fold_left (fun m e => pm_addC (wkey (mkword (fst e)))
+                                (Qred (fst (snd e) # den), Qred (snd (snd e) # den)) m) imp (PositiveMap.empty CQ).
 Definition findK (m : PositiveMap.t K) (k : positive) : K :=
   match PositiveMap.find k m with Some c => c | None => k0 end.
 Definition findC (m : PositiveMap.t CQ) (k : positive) : CQ :=
@@ -373,14 +375,14 @@ Definition check_case (c : case) : bool :=
   | None, None => true
   | Some ms, Some imp =>
       let mm := model_map ms in
-      let im := impl_map imp in
+      let im := impl_map 1000000000000 imp in
       forallb (fun kv => cqclose (kapprox (snd kv)) (findC im (fst kv))) (PositiveMap.elements mm) &&
       forallb (fun kv => cqclose (kapprox (findK mm (fst kv))) (snd kv)) (PositiveMap.elements im)
   | _, _ => false
   end.
 
 (* exact variant, used when every model coefficient is rational (mask 0): the implementation's coefficient
-   snapped to a small rational must EQUAL the model's *)
+   snapped to a multiple of 1/4096 must EQUAL the model's *)
 Definition rational_only (s : ksent) : bool :=
   forallb (fun e => forallb (fun t => fst t =? 0) (snd e)) s.
 Definition check_case_exact (c : case) : bool :=
@@ -389,7 +391,7 @@ Definition check_case_exact (c : case) : bool :=
   | None, None => true
   | Some ms, Some imp =>
       let mm := model_map ms in
-      let im := impl_map imp in
+      let im := impl_map 4096 imp in
       rational_only ms &&
       forallb (fun kv => keqb (snd kv) (kofCQ (findC im (fst kv)))) (PositiveMap.elements mm) &&
       forallb (fun kv => keqb (findK mm (fst kv)) (kofCQ (snd kv))) (PositiveMap.elements im)
